@@ -1,0 +1,29 @@
+//go:build verif
+
+package db
+
+// Hook of the deterministic-simulation harness. The harness installs the
+// function below; while none is installed the hook is a no-op.
+
+// VerifHooks are the functions a simulated scheduler installs.
+var VerifHooks struct {
+	// Yield is called at points where the running task may be preempted.
+	Yield func(point string)
+}
+
+func verifYield(point string) {
+	if f := VerifHooks.Yield; f != nil {
+		f(point)
+	}
+}
+
+// VerifLockFree reports whether nobody holds the MemDB's lock (neither a
+// writer nor an open iterator). The simulated scheduler parks a task only
+// where this is true, so that a parked task never blocks the one that runs.
+func VerifLockFree(db *MemDB) bool {
+	if !db.mtx.TryLock() {
+		return false
+	}
+	db.mtx.Unlock()
+	return true
+}
